@@ -124,6 +124,8 @@ def s11_region(it):
             return e
         if e[0] == "var":
             return resolve_alias(it.decls, e)
+        if e[0] == "proj":
+            return canon(e[1])   # a projection folded into its producer only names the output signal
         e = tuple(canon(x) for x in e)
         if e[0] == "bin" and e[1] in ("+", "*", "AND", "OR", "XOR") and repr(e[3]) < repr(e[2]):
             e = (e[0], e[1], e[3], e[2])   # the optimiser's CSE treats these operators as commutative
